@@ -228,9 +228,13 @@ def seeding(check: Check, repo) -> None:
 
 
 def or_default(check: Check, repo, rep) -> None:
-    from ..truthy import apply
+    from ..truthy import apply, apply_find_sentinel
 
-    apply(check, repo, rep, "OR-DEFAULT", lambda rel: rel.startswith(MATCH_FILES_PREFIX) or rel in ("src/pest/parser.py", "src/pest/state.py", "src/pest/stack.py", "src/pest/pairs.py"))
+    scope = lambda rel: rel.startswith(MATCH_FILES_PREFIX) or rel in ("src/pest/parser.py", "src/pest/state.py", "src/pest/stack.py", "src/pest/pairs.py")  # noqa: E731
+    apply(check, repo, rep, "OR-DEFAULT", scope)
+    # a hit at absolute offset 0 is an ordinary search result (only -1 means "not found")
+    apply_find_sentinel(check, repo, rep, "FIND-SENTINEL", scope)
+    check.floor("search_result_functions", 1)
 
 
 POSITION_FIELDS = ("pos", "furthest_pos")
@@ -271,7 +275,7 @@ def absolute_constants(check: Check, repo) -> None:
 
 def run(tier: str) -> Check:
     check = Check("C16", tier, EXPLANATION)
-    check.rules = ["POS", "ABSPOS", "INPUT-ACCESS", "PATTERN-FRAGMENT", "SEED", "OR-DEFAULT", "ABS-CONST"]
+    check.rules = ["FIND-SENTINEL", "POS", "ABSPOS", "INPUT-ACCESS", "PATTERN-FRAGMENT", "SEED", "OR-DEFAULT", "ABS-CONST"]
     check.assumptions = [
         "str.startswith(x, pos), str.find(x, pos) and pattern.match(s, pos) do not consult characters before pos (match() with a pos argument treats ^ as matching at the real start only, hence the anchor scan)",
         "grammars using SOI are outside the property",
